@@ -77,6 +77,7 @@ class Ctx:
         self.work = []
         self.model = None
         self._t0 = None
+        self._keep = []
 
     # ------------------------------------------------------------------ symbols
     def var(self, name):
@@ -206,6 +207,27 @@ class Ctx:
             return r
         ze = self._zexpr(c, k)
         cond = (ze <= 0) if kind == "le" else (ze < 0) if kind == "lt" else (ze == 0)
+        return self._decide_z(cond, key)
+
+    def decide_cond(self, cond):
+        """Truth value on the current path of an arbitrary z3 condition (used by Term)."""
+        self.ndec += 1
+        cond = z3.simplify(cond)
+        if z3.is_true(cond):
+            self.ntriv += 1
+            return True
+        if z3.is_false(cond):
+            self.ntriv += 1
+            return False
+        key = ("z", cond.get_id())
+        r = self.known.get(key)
+        if r is not None:
+            self.ncache += 1
+            return r
+        self._keep.append(cond)   # keep the AST alive so that its id is not recycled
+        return self._decide_z(cond, key)
+
+    def _decide_z(self, cond, key):
         mv = None
         if self.model is not None:
             ev = self.model.eval(cond, model_completion=True)
@@ -287,6 +309,16 @@ class Ctx:
             # _check(extra) leaves the model of that check available
             return self.model_values(self.solver.model())
         return None
+
+    def prove_raw(self, claim, zvars):
+        """Like prove, for claims over z3 variables not declared in the Ctx: returns their values or None."""
+        if self._check(z3.Not(claim)):
+            m = self.solver.model()
+            return [m.eval(z, model_completion=True).as_long() for z in zvars]
+        return None
+
+    def model_values_z(self, zvars):
+        return [self.model.eval(z, model_completion=True).as_long() for z in zvars]
 
     def sat(self, claim):
         """Is PC ∧ claim satisfiable?  Returns model values or None."""
@@ -505,3 +537,88 @@ class Lin:
         return f"<{s}>"
 
     __str__ = __repr__
+
+
+class Term:
+    """Opaque symbolic value (a z3 Int/Real term) for data that is only compared, moved and minimised.
+
+    Comparisons fork like Lin comparisons.  Where the code under test calls the builtin min/max the
+    harness may bind `ite_min` / `ite_max` in the module under test so that no fork is needed.
+    """
+
+    __slots__ = ("ctx", "z")
+
+    def __init__(self, ctx, z):
+        self.ctx = ctx
+        self.z = z
+
+    def _oz(self, o):
+        if isinstance(o, Term):
+            return o.z
+        if isinstance(o, bool):
+            return None
+        if isinstance(o, int):
+            return z3.IntVal(o)
+        return None
+
+    def _cmp(self, o, f):
+        oz = self._oz(o)
+        if oz is None:
+            return NotImplemented
+        return self.ctx.decide_cond(f(self.z, oz))
+
+    def __lt__(self, o):
+        return self._cmp(o, lambda a, b: a < b)
+
+    def __le__(self, o):
+        return self._cmp(o, lambda a, b: a <= b)
+
+    def __gt__(self, o):
+        return self._cmp(o, lambda a, b: a > b)
+
+    def __ge__(self, o):
+        return self._cmp(o, lambda a, b: a >= b)
+
+    def __eq__(self, o):
+        return self._cmp(o, lambda a, b: a == b)
+
+    def __ne__(self, o):
+        r = self.__eq__(o)
+        return r if r is NotImplemented else not r
+
+    def __hash__(self):
+        raise OutsideEncoding("hash of a symbolic value")
+
+    def __repr__(self):
+        return f"Term({self.z})"
+
+
+def ite_min(*args):
+    """Model of the builtin min(a, b, ...) on Terms: left-biased, merged with ite instead of forking."""
+    if len(args) == 1:
+        args = tuple(args[0])
+    r = args[0]
+    for b in args[1:]:
+        if isinstance(r, Term) or isinstance(b, Term):
+            ctx = r.ctx if isinstance(r, Term) else b.ctx
+            rz = r.z if isinstance(r, Term) else z3.IntVal(r)
+            bz = b.z if isinstance(b, Term) else z3.IntVal(b)
+            r = Term(ctx, z3.If(bz < rz, bz, rz))
+        else:
+            r = b if b < r else r
+    return r
+
+
+def ite_max(*args):
+    if len(args) == 1:
+        args = tuple(args[0])
+    r = args[0]
+    for b in args[1:]:
+        if isinstance(r, Term) or isinstance(b, Term):
+            ctx = r.ctx if isinstance(r, Term) else b.ctx
+            rz = r.z if isinstance(r, Term) else z3.IntVal(r)
+            bz = b.z if isinstance(b, Term) else z3.IntVal(b)
+            r = Term(ctx, z3.If(bz > rz, bz, rz))
+        else:
+            r = b if b > r else r
+    return r
